@@ -82,7 +82,8 @@ func c15Program(id string, snips []snippet, sc c15Scheme, base int) *Program {
 	}
 	var w, probe strings.Builder
 	w.WriteString("//go:build wireinject\n// +build wireinject\n\npackage app\n\nimport (\n")
-	w.WriteString(imp(sc.Fmt, "fmt") + imp(sc.Sort, "sort") + imp(sc.Str, "strings") + imp(sc.Lib, p.ImportPath(1)) + "\t\"github.com/google/wire\"\n)\n\n")
+	w.WriteString(imp(sc.Fmt, "fmt") + imp(sc.Sort, "sort") + imp(sc.Str, "strings") + imp(sc.Lib, p.ImportPath(1)) + "\t_ \"embed\"\n\t\"github.com/google/wire\"\n)\n\n")
+	p.Extra["0/embed_data.txt"] = "embedded text\n"
 	fq, sq, lq, soq := qual(sc.Fmt, "fmt"), qual(sc.Str, "strings"), qual(sc.Lib, sc.LibPkgName), qual(sc.Sort, "sort")
 	w.WriteString("var _ = " + fq + "Sprint\nvar _ = " + sq + "ToUpper\nvar _ = " + lq + "Const\nvar _ = " + soq + "Strings\n\n")
 	// the first snippet precedes the first injector; the last one goes to a second injector file
@@ -115,7 +116,7 @@ func c15Program(id string, snips []snippet, sc c15Scheme, base int) *Program {
 		w.WriteString("// Init is the injector.\nfunc Init() A {\n\twire.Build(NewA)\n\treturn A{}\n}\n\n")
 	}
 	if w2.Len() > 0 {
-		hdr := "//go:build wireinject\n// +build wireinject\n\npackage app\n\nimport (\n" + imp(sc.Fmt, "fmt") + imp(sc.Sort, "sort") + imp(sc.Str, "strings") + imp(sc.Lib, p.ImportPath(1)) + "\t\"github.com/google/wire\"\n)\n\n"
+		hdr := "//go:build wireinject\n// +build wireinject\n\npackage app\n\nimport (\n" + imp(sc.Fmt, "fmt") + imp(sc.Sort, "sort") + imp(sc.Str, "strings") + imp(sc.Lib, p.ImportPath(1)) + "\t_ \"embed\"\n\t\"github.com/google/wire\"\n)\n\n"
 		hdr += "var _ = " + fq + "Sprint\nvar _ = " + sq + "ToLower\nvar _ = " + lq + "Const\nvar _ = " + soq + "Ints\n\n"
 		p.Extra["0/wire_b.go"] = hdr + w2.String() + "// InitB is the injector of the second file.\nfunc InitB() *A {\n\tpanic(wire.Build(NewPA))\n}\n"
 		p.Extra["0/decl.go"] += "\nfunc NewPA() *A { return &A{X: 2} }\n"
